@@ -24,7 +24,7 @@ from ..model import AnalysisError
 from ..x_syncnorm import normalized
 
 NORM_MODULES = ("tornado/locks.py", "tornado/queues.py", "tornado/gen.py", "tornado/concurrent.py", "tornado/ioloop.py", "tornado/platform/asyncio.py")
-from ..x_sync import in_cycle, check_none_tests, own_walk, guard_models, aug_delta, node_counts, method_call_on, exit_states, lambda_or_func_body_calls, own_find, own_settle_sites
+from ..x_sync import callable_cfg, check_outcome_reads, in_cycle, check_none_tests, own_walk, guard_models, aug_delta, node_counts, method_call_on, exit_states, lambda_or_func_body_calls, own_find, own_settle_sites
 from .c33 import check_fifo, check_gc, check_timeout_cb, _is_grant, _grant_target, _grant_value, _timeout_param, _drop_done_test, _rename_attr
 
 TECHNIQUE = "typestate over the CFG (wake-up accounting), settle-discipline and who-may-touch lint"
@@ -340,6 +340,22 @@ def check_event_wait(ck, fi):
     for n, c, recv, body in cancel:
         cs = [b for b in body if isinstance(b.func, ast.Attribute) and b.func.attr == "cancel"]
         on_wrapper = recv in wrapvars or (recv is None and isinstance(c.func.value, ast.Call) and q.call_attr(c.func.value) == "with_timeout")
+        # whenever the wrapper finishes — timed out, cancelled by the caller, or completed — a still pending inner waiter is cancelled
+        ccfg = callable_cfg(ck.repo, fi, c.args[0])
+        if ccfg is None:
+            raise AnalysisError("%s: cancellation hook in an unrecognised shape" % fi.site(c))
+        from ..cfg import _node_roots
+        def _cn(nd):
+            if nd.ast is None or nd.kind not in ("stmt", "test") or isinstance(nd.ast, q.ScopeNode):
+                return 0
+            return sum(1 for r_ in _node_roots(nd) for y in q.walk_local(r_) if method_call_on(y, fut, "cancel"))
+        donef_ = "%s.done()" % fut
+        st_, _e = exit_states(ccfg, 0, lambda nd, v: min(2, v + _cn(nd)), track=lambda t: t == donef_, follow_exc=False)
+        for f_, k_ in st_:
+            live_ = (donef_, True) not in f_
+            ck.ob("C34.event-wait", fi, c, k_ >= 1 if live_ else True,
+                  "whatever way the timeout wrapper finishes (timeout, caller's cancellation, completion), a still pending inner waiter is cancelled so that it leaves the waiter set (pending=%s cancels=%d)" % (live_, k_),
+                  construct="cancel hook pending=%s cancels=%d" % (live_, k_))
         ck.ob("C34.event-wait", fi, c, on_wrapper and all(q.dotted(b.func.value) == fut for b in cs), "when the timeout wrapper finishes it cancels the inner waiter (so it leaves the set)")
 
     def cnt(sites):
@@ -478,6 +494,7 @@ def run(ck):
     ck.rule("C34.event-clear", "Event.clear only stores False; _value has no other writer")
     ck.rule("C34.event-wait", "Event.wait: immediate completion only when set; otherwise register + self-removal; with a timeout, wrap in with_timeout(timeout, waiter), cancel the inner waiter when the wrapper finishes, return the wrapper")
     ck.rule("C34.none-test", "the timeout of Condition.wait / Event.wait is compared with None by identity (timeout=0 is a legal, immediate timeout)")
+    ck.rule("C34.cancel-aware", "any result()/exception() read of a waiter future in Condition/Event is cancel-aware")
     ck.rule("C34.with-timeout", "gen.with_timeout chains input->result once, arms one timer with the timeout; the timer callback fails only a pending result, with TimeoutError")
 
     n = 0
@@ -491,6 +508,10 @@ def run(ck):
     check_gc(ck, R="C34.gc-live", val=None)
     check_event(ck)
     check_with_timeout(ck)
+    for cls in COND_FAMILY + ("Event",):
+        for f_ in ck.repo.methods(L, cls):
+            if isinstance(f_.node, q.FuncNode):
+                check_outcome_reads(ck, "C34.cancel-aware", f_)
 
 
 # ---------------------------------------------------------------------------
@@ -515,6 +536,7 @@ def _move_dec_out_of_guard(root):
 
 
 MUTANTS = [
+    ("a cancelled timed Event.wait leaves its waiter registered (hook acts only on a failed, not cancelled wrapper; seeded C34-adv3)", _in("Event.wait", replace_expr(lambda n: isinstance(n, ast.Lambda) and "cancel()" in ast.unparse(n), lambda n: parse_expr("lambda tf: fut.cancel() if (not tf.cancelled() and tf.exception() is not None) else None"))), "C34.event-wait"),
     ("notify(n) wakes at most one waiter (while -> if)", _in("Condition.notify", lambda root: _while_to_if(root)), "C34.notify-ts"),
     ("notify() defaults to waking nobody (n=0)", _in("Condition.notify", lambda root: _set_default(root, 0)), "C34.notify-wake"),
     ("Condition.wait(timeout=0) waits forever (`if timeout:`, seeded C34-adv1)", _in("Condition.wait", replace_expr(lambda n: isinstance(n, ast.Compare) and isinstance(n.ops[0], ast.IsNot) and ast.unparse(n.left) == "timeout", lambda n: n.left)), ("C34.none-test", "C34.cond-timeout")),
